@@ -156,9 +156,13 @@ fn eval_expr_impl(
             assign(shell, lvalue, expr_eval, depth)?
         }
         ast::ArithmeticExpr::UnaryAssignment(op, lvalue) => {
-            apply_unary_assignment_op(shell, lvalue, *op, depth)?
+            // The target is both read and written; evaluate its subscript only once.
+            let lvalue = resolve_lvalue(shell, lvalue, depth)?;
+            apply_unary_assignment_op(shell, &lvalue, *op, depth)?
         }
         ast::ArithmeticExpr::BinaryAssignment(op, lvalue, operand) => {
+            // The target is both read and written; evaluate its subscript only once.
+            let lvalue = resolve_lvalue(shell, lvalue, depth)?;
             let value = apply_binary_op(
                 shell,
                 *op,
@@ -166,11 +170,32 @@ fn eval_expr_impl(
                 operand,
                 depth,
             )?;
-            assign(shell, lvalue, value, depth)?
+            assign(shell, &lvalue, value, depth)?
         }
     };
 
     Ok(value)
+}
+
+/// Evaluates the subscript of an array-element target, yielding an equivalent target
+/// whose subscript is a literal. This lets operators that both read and write their
+/// target (`op=`, `++`, `--`) evaluate the subscript -- and apply its side effects --
+/// exactly once.
+fn resolve_lvalue(
+    shell: &mut Shell<impl extensions::ShellExtensions>,
+    lvalue: &ast::ArithmeticTarget,
+    depth: u32,
+) -> Result<ast::ArithmeticTarget, EvalError> {
+    match lvalue {
+        ast::ArithmeticTarget::Variable(_) => Ok(lvalue.clone()),
+        ast::ArithmeticTarget::ArrayElement(name, index_expr) => {
+            let index = eval_expr_impl(index_expr, shell, depth)?;
+            Ok(ast::ArithmeticTarget::ArrayElement(
+                name.clone(),
+                Box::new(ast::ArithmeticExpr::Literal(index)),
+            ))
+        }
+    }
 }
 
 fn get_var_value<'a>(
